@@ -25,10 +25,10 @@ CHECKS = {
             "Units from F-scc and F-shape; variants: every permutation of the rules (<= 4 rules), reversed / rotated declarations, reversed head clauses, every order of mutually independent body clauses, three adversarial variable namings (single letters, underscore variants that collide with generated suffixes, unicode), two relation renamings (alphabetical order reversed; prefixes of each other), injective renamings of the constants into i64 / String / a struct with colliding Hash (generic struct signature, both permutations of the domain), and every input in ascending, descending and rotated tuple order.",
             "identifiers reserved by the generated code (__-prefixed internals) are not used as names; domain {0,1}", "6 C06"),
     "C07": ("P progcheck", "differential sugared vs hand-expanded (by the harness's own expander implementing the documented rules) vs reference, all inputs",
-            "F-sugar: one- and two-clause bodies with every surface form (wildcard, constant, ?pattern binder / constant, repeated variable, expression over a variable of the same or of an earlier clause) alone (thorough: in pairs) in every argument position; negation (bound, wildcard, expression arguments), disjunction and nested disjunction, several head clauses, condition attached to the second clause of a simple join, body-less facts. The reference evaluator run on the sugared AST must agree with the expander on every input.",
+            "F-sugar: one- and two-clause bodies with every surface form (wildcard, constant, ?pattern binder / constant, repeated variable, expression over a variable of the same or of an earlier clause) alone (thorough: in pairs) in every argument position; negation (bound, wildcard, expression arguments), disjunction and nested disjunction, several head clauses, condition attached to the second clause of a simple join, body-less facts; a let / for item in front of one or two clauses so that a clause argument bound earlier is an equality test inside what looks like a plain join, with a third variant in which every earlier-bound clause variable is written as a fresh variable plus `if` test. The reference evaluator run on the sugared AST must agree with the expander on every input.",
             "the expander is the documented semantics written down once", "6 C07"),
     "C08": ("P progcheck", "differential with-macros vs hand expansion vs reference, all inputs, under every spelling clash",
-            "F-macro: 7 macro definitions (ident / expr parameters, locals, condition, disjunction, nested and 3-deep invocations, head macro, let + negation) x 16 call patterns (same macro twice, macro inside a disjunction, head and body position ...) x 7 naming schemes in which call-site variables are spelled like macro locals, like parameters, and like the names the renamer itself generates.",
+            "F-macro: 9 macro definitions (ident / expr parameters, locals, condition, disjunction, nested and 3-deep invocations, head macro, let + negation, a disjunction of nested invocations, a local determined by a parameter) x 24 call patterns (same macro twice, invocations inside a disjunction whose disjuncts invoke a macro a different number of times followed / preceded by further invocations, head and body position ...) x 7 naming schemes in which call-site variables are spelled like macro locals, like parameters, and like the names the renamer itself generates.",
             "self-referential macros are covered by C15", "6 C08"),
     "C09": ("P progcheck", "differential over packaging configurations, all compiled by the real macros, compared with the reference on all inputs",
             "F-pack: programs from F-scc, F-lat, F-agg, F-shape, each as ascent! / ascent_run! (inputs captured from locals) / include_source with the text cut at item boundaries (every cut in thorough) under ascent!, ascent_run!, ascent_par! / relations declared with initialisers / every relation re-declared (later declaration and initialiser win) / measure_rule_times, generate_run_timeout, both / generic struct signature with and without a separate impl signature; the whole family a second time built with the cargo feature segment-codegen.",
@@ -36,11 +36,11 @@ CHECKS = {
     "C15": ("P progcheck, two stages", "exhaustive enumeration of single ill-formedness mutations at every position x four macros; the real macro implementation runs inside rustc (hook), rustc judges what the macro accepts",
             "From 30 (quick) well-formed base programs: undeclared relation and arity +-1 at every atom (heads, bodies, aggregates, negations, bodies of invoked macros); aggregate / negation of a relation in its own stratum directly, via a second rule, via a multi-head rule; rebinding a bound variable by let / if-let / generator / ?pattern / aggregate pattern after every body item; self- and mutually-recursive macros in body, head and disjunction position; include_source! inside ascent_source!; ds attribute on a lattice, two ds attributes; unknown inner / relation attributes; inter_rule_parallelism on serial macros. Every variant must be rejected by the macro (no panic) or by rustc with an error located at the program.",
             "mutations are applied to the printed program text; hook verif_expand_status!", "6 C15"),
-    "C10": ("P progcheck", "bounded-exhaustive insertion histories x access patterns on compiled programs with the real eqrel provider vs the explicit equivalence closure", 'Programs with a clocked feeder (the input relation sched(i,[k,]a,b) is the insertion history: which pair arrives in which iteration of the recursive stratum, keys that pause and resume), an at-once feeder, a feeder split over two strata and a self-feeding rule; one reader per access pattern (every subset of bound columns, constants, repeated variable, relation first / second in a simple join, self join) placed in a later stratum and inside the recursive stratum; binary and ternary form; all schedules with <= 3 facts over pairs {0,1,2}^2, times 0..2 (ternary: 2 keys); every reader relation compared with the explicit reflexive-symmetric-transitive closure computed by the naive evaluator; programs that do not compile are reported.', "serial macros only in this entry (parallel binary eqrel: vsched); results observed through reader relations", "6 C10-C12"),
-    "C11": ("P progcheck", "bounded-exhaustive insertion histories x access patterns on compiled programs with the real trrel provider vs the explicit transitive closure", 'Programs with a clocked feeder (the input relation sched(i,[k,]a,b) is the insertion history: which pair arrives in which iteration of the recursive stratum, keys that pause and resume), an at-once feeder, a feeder split over two strata and a self-feeding rule; one reader per access pattern (every subset of bound columns, constants, repeated variable, relation first / second in a simple join, self join) placed in a later stratum and inside the recursive stratum; binary and ternary form; all schedules with <= 3 facts over pairs {0,1,2}^2, times 0..2 (ternary: 2 keys); every reader relation compared with the explicit transitive closure computed by the naive evaluator; programs that do not compile are reported.', "results observed through reader relations", "6 C10-C12"),
-    "C12": ("P progcheck", "bounded-exhaustive insertion histories x access patterns on compiled programs with the real trrel_uf provider vs the explicit reflexive-transitive closure", 'Programs with a clocked feeder (the input relation sched(i,[k,]a,b) is the insertion history: which pair arrives in which iteration of the recursive stratum, keys that pause and resume), an at-once feeder, a feeder split over two strata and a self-feeding rule; one reader per access pattern (every subset of bound columns, constants, repeated variable, relation first / second in a simple join, self join) placed in a later stratum and inside the recursive stratum; binary and ternary form; all schedules with <= 3 facts over pairs {0,1,2}^2, times 0..2 (ternary: 2 keys); every reader relation compared with the explicit reflexive-transitive closure computed by the naive evaluator; programs that do not compile are reported.', "results observed through reader relations", "6 C10-C12"),
+    "C10": ("P progcheck", "bounded-exhaustive insertion histories x access patterns on compiled programs with the real eqrel provider vs the explicit equivalence closure", 'Programs with a clocked feeder (the input relation sched(i,[k,]a,b) is the insertion history: which pair arrives in which iteration of the recursive stratum, keys that pause and resume), an at-once feeder, a feeder split over two strata and a self-feeding rule; one reader per access pattern (every subset of bound columns, constants, repeated variable, relation first / second in a simple join, self join) placed in a later stratum and inside the recursive stratum; binary and ternary form; all schedules with <= 4 (ternary: 3) facts over pairs {0,1,2}^2, times 0..2 (ternary: 2 keys), plus 'deep4' programs without element constants run on all schedules with <= 4 facts over 4 elements, one representative per renaming of the elements; every reader relation compared with the explicit reflexive-symmetric-transitive closure computed by the naive evaluator; programs that do not compile are reported.', "serial macros only in this entry (parallel binary eqrel: vsched); results observed through reader relations", "6 C10-C12"),
+    "C11": ("P progcheck", "bounded-exhaustive insertion histories x access patterns on compiled programs with the real trrel provider vs the explicit transitive closure", 'Programs with a clocked feeder (the input relation sched(i,[k,]a,b) is the insertion history: which pair arrives in which iteration of the recursive stratum, keys that pause and resume), an at-once feeder, a feeder split over two strata and a self-feeding rule; one reader per access pattern (every subset of bound columns, constants, repeated variable, relation first / second in a simple join, self join) placed in a later stratum and inside the recursive stratum; binary and ternary form; all schedules with <= 4 (ternary: 3) facts over pairs {0,1,2}^2, times 0..2 (ternary: 2 keys), plus 'deep4' programs without element constants run on all schedules with <= 4 facts over 4 elements, one representative per renaming of the elements; every reader relation compared with the explicit transitive closure computed by the naive evaluator; programs that do not compile are reported.', "results observed through reader relations", "6 C10-C12"),
+    "C12": ("P progcheck", "bounded-exhaustive insertion histories x access patterns on compiled programs with the real trrel_uf provider vs the explicit reflexive-transitive closure", 'Programs with a clocked feeder (the input relation sched(i,[k,]a,b) is the insertion history: which pair arrives in which iteration of the recursive stratum, keys that pause and resume), an at-once feeder, a feeder split over two strata and a self-feeding rule; one reader per access pattern (every subset of bound columns, constants, repeated variable, relation first / second in a simple join, self join) placed in a later stratum and inside the recursive stratum; binary and ternary form; all schedules with <= 4 (ternary: 3) facts over pairs {0,1,2}^2, times 0..2 (ternary: 2 keys), plus 'deep4' programs without element constants run on all schedules with <= 4 facts over 4 elements, one representative per renaming of the elements; every reader relation compared with the explicit reflexive-transitive closure computed by the naive evaluator; programs that do not compile are reported.', "results observed through reader relations", "6 C10-C12"),
     "C14": ("P progcheck + virtual clock", "fault enumeration: run_timeout(t) for every t in 0..=M+1 virtual clock readings, i.e. every position at which the deadline can strike; single, repeated and double interruptions; resume with run()",
-            "Programs from F-scc, F-lat, F-agg compiled with #![generate_run_timeout]; hook H-A2 makes ascent::internal::Instant a per-thread tick counter (1 ns per reading) so that scanning t hits every deadline check; after a false return every tuple must be in the model and every lattice value below the final one, after true the state equals the fixed point, after the resuming run() it equals the fixed point of an uninterrupted run.",
+            "Programs from F-scc, F-lat, F-agg and the binary BYODS programs of F-ds (relation computed in one stratum, read in a later / the same one) compiled with #![generate_run_timeout]; hook H-A2 makes ascent::internal::Instant a per-thread tick counter (1 ns per reading) so that scanning t hits every deadline check; after a false return every tuple must be in the model and every lattice value below the final one, after true the state equals the fixed point, after the resuming run() it equals the fixed point of an uninterrupted run.",
             "serial macro; hook verif-hooks (virtual Instant)", "6 C14"),
     "C16": ("H histcheck", "exhaustive enumeration (all pairs / triples over complete small carriers) on the real Lattice impls",
             "All 256 values of u8/i8 (pairs; triples in thorough), boundary carriers for wider integers, complete carriers for every shipped composite lattice incl. nestings; every law of the property is evaluated on every pair/triple of the real implementation.",
@@ -52,7 +52,7 @@ CHECKS = {
             "Every add-sequence over 4 elements to depth 6 (7 thorough) and over 5 elements to depth 4 (5) on the real TrRelUnionFind; every add/find/union sequence to depth 5 (6) on the real UnionFind incl. the unsafe id-based API; after each operation all public queries and the structures' own invariant checks are compared with a Warshall closure / partition.",
             "element domain 4-5, depth bound; hash iteration order is whatever FxHasher gives for u8 keys", "6 C18"),
     "C20": ("S vsched", "exhaustive enumeration of pool configurations (one process each) x deviation-bounded exhaustive schedule exploration of the real parallel code",
-            "Programs: transitive closure, un-indexed scans (CRelNoIndex), lattice, initialised relation; pool current at construction in {global(2),1,2,3} x pool at run 1 x pool at run 2 in {1,2,3} (+ nested 2-in-3, thorough: a third run), facts added between runs, every execution with <= 2 (3) deviations; result must equal the serial program's. Plus three program values (two parallel of the same type, one serial) running concurrently on 3 workers.",
+            "Programs: transitive closure, un-indexed scans (CRelNoIndex), lattice, initialised relation; pool current at construction in {global(2),1,2,3} x pool at run 1 x pool at run 2 in {1,2,3} (+ nested 2-in-3, thorough: a third run), facts added between runs, every execution with <= 2 (3) deviations; result must equal the serial program's. Plus three program values (two parallel of the same type, one serial) running concurrently on 3 workers, and two parallel values (one with three strata) running at the same time in pools of sizes 1 and 3, every execution of that configuration in a fresh process.",
             "pool sizes 1..3; the executor shim models rayon's contract (any idle worker may take a pending job), not its heuristics", "6 C20"),
     "C19": ("H histcheck + S vsched", "exhaustive DFS over all operation histories on every real index type vs a reference multimap; every interleaving of 2-3 virtual threads writing one shared concurrent index",
             "All sequences of insert (both write traits, into new/delta/total), insert-if-absent, merge_delta_to_total_new_to_delta, move_index_contents (six directions), freeze/unfreeze to depth 5 (concurrent types 4; thorough 6) on RelIndexType1, ToRelIndexType, RelFullIndexType, LatticeIndexType, RelNoIndexType, CRelIndex, CRelFullIndex, CLatIndex, CRelNoIndex and the RelIndexCombined view, with keys in the same and in different dashmap shards; every read path compared with a reference multimap after every operation. Concurrent part: every interleaving (vsched, dashmap lock shim) of 2 threads x 2 inserts / insert-if-absent calls and 3 threads x 1 insert on CRelIndex, CLatIndex, CRelFullIndex, CRelNoIndex with colliding keys, then freeze + all read paths: every insert retained, exactly one insert-if-absent winner per key.",
